@@ -191,14 +191,34 @@ def drive(ctx, strategy, body, max_examples, shrink=True, tag="", count=True):
             raise
 
 
-def _caused_by_violation(e):
-    seen = 0
-    while e is not None and seen < 10:
-        if isinstance(e, Violation):
+def _caused_by_violation(e, depth=0):
+    """a Violation anywhere in the exception's cause / context chain or, for Hypothesis' exception groups (flaky or multiple
+    failures: the defect depends on state that outlives one example), among its members"""
+    if e is None or depth > 12:
+        return False
+    if isinstance(e, Violation):
+        return True
+    for sub in getattr(e, "exceptions", ()) or ():
+        if _caused_by_violation(sub, depth + 1):
             return True
-        e = e.__cause__ or e.__context__
-        seen += 1
-    return False
+    return _caused_by_violation(e.__cause__, depth + 1) or _caused_by_violation(e.__context__, depth + 1)
+
+
+@contextlib.contextmanager
+def collecting(ctx):
+    """run a Hypothesis-driven block: a Violation (also one wrapped by Hypothesis in a flaky-failure / exception group) is recorded as the
+    shard's violation; any other exception is a harness error and propagates"""
+    try:
+        yield
+    except Violation as v:
+        ctx.record_violation(ctx._last_violation or v)
+    except BaseException as e:
+        if isinstance(e, (KeyboardInterrupt, SystemExit)):
+            raise
+        if ctx._last_violation is not None and _caused_by_violation(e):
+            ctx.record_violation(ctx._last_violation)
+        else:
+            raise
 
 
 @contextlib.contextmanager
